@@ -3,6 +3,7 @@ import OtterVerif.Impl.Sketch
 import OtterVerif.Impl.Wheel
 import OtterVerif.Impl.Mpsc
 import OtterVerif.Impl.Policy
+import OtterVerif.Impl.Ring
 
 namespace Driver.Units
 open OtterVerif
@@ -291,6 +292,63 @@ def cpStep (_st : Unit) (line : String) (t : Tally) : Except String (Unit × Tal
     else .ok ((), t)
   | _ => .error "unknown line"
 
+/-! ### ring (sequential) and conc-ring (delivery log) -/
+
+def rgStep (r : Impl.Ring.Ring) (line : String) (t : Tally) : Except String (Impl.Ring.Ring × Tally) :=
+  let ws := splitWs line
+  let dumpR (r : Impl.Ring.Ring) := s!"head={r.head} tail={r.tail} len={Impl.Ring.len r}"
+  match ws with
+  | "new" :: x :: "=>" :: rest =>
+    let r' := Impl.Ring.newRing x.toNat!
+    if dumpR r' != " ".intercalate rest then .error s!"newRing: implementation {" ".intercalate rest}, model {dumpR r'}" else .ok (r', t)
+  | "add" :: x :: "=>" :: st :: rest =>
+    let (r', s) := Impl.Ring.add r x.toNat!
+    let code := match s with | .success => "0" | .failed => "-1" | .full => "1"
+    let t := if s == .full then t.bump "full" else t.bump "added"
+    if Impl.Ring.len r' > 16 then .error s!"C17: the ring holds {Impl.Ring.len r'} entries, capacity 16"
+    else if s!"{code} {dumpR r'}" != s!"{st} {" ".intercalate rest}" then .error s!"add {x}: implementation {st} {" ".intercalate rest}, model {code} {dumpR r'}"
+    else .ok (r', t)
+  | "drain" :: "=>" :: got :: rest =>
+    let (r', xs) := Impl.Ring.drainTo r
+    let g := "[" ++ ",".intercalate (xs.map toString) ++ "]"
+    if s!"{g} {dumpR r'}" != s!"{got} {" ".intercalate rest}" then .error s!"drainTo: implementation {got} {" ".intercalate rest}, model {g} {dumpR r'}"
+    else .ok (r', (t.bump "drains").bump "drained" xs.length)
+  | _ => .error "unknown line"
+
+structure CrSt where
+  accepted : List Nat := []
+  delivered : List Nat := []
+  maxlen : Nat := 0
+
+def crStep (st : CrSt) (line : String) (t : Tally) : Except String (CrSt × Tally) :=
+  let ws := splitWs line
+  match ws with
+  | "cfg" :: rest =>
+    let seen := natOf rest "maxlenseen"
+    let stripes := natOf rest "stripes"
+    if seen > 16 * (max stripes 1) then .error s!"C17: the buffer held {seen} entries with {stripes} stripes of capacity 16"
+    else if natOf rest "finallen" != 0 then .error s!"C17: after all recorders finished and a drain ran, {natOf rest "finallen"} recorded entries are still undelivered"
+    else if stripes > max (natOf rest "maxlen") 1 then .error s!"C17: {stripes} stripes exceed the configured maximum {natOf rest "maxlen"}"
+    else .ok ({ accepted := [], delivered := [], maxlen := natOf rest "maxlen" }, t.bump "runs")
+  | ["accepted", x] => .ok ({ st with accepted := x.toNat! :: st.accepted }, t.bump "accepted")
+  | ["delivered", x] => .ok ({ st with delivered := x.toNat! :: st.delivered }, t.bump "delivered")
+  | ["end"] =>
+    let acc := st.accepted.mergeSort (· ≤ ·)
+    let del := st.delivered.mergeSort (· ≤ ·)
+    let rec dupOf : List Nat → Option Nat
+      | a :: b :: rest => if a == b then some a else dupOf (b :: rest)
+      | _ => none
+    match dupOf del with
+    | some d => .error s!"C17: recorded entry {d} was handed to the consumer more than once"
+    | none =>
+      match del.find? (fun x => !acc.contains x) with
+      | some x => .error s!"C17: entry {x} was handed to the consumer but was never successfully recorded"
+      | none =>
+        match acc.find? (fun x => !del.contains x) with
+        | some x => .error s!"C17: successfully recorded entry {x} was never delivered although the buffer is quiescent and was drained"
+        | none => .ok (st, t)
+  | _ => .error "unknown line"
+
 /-- generic script loop: `step` per line, first failure of a script is reported, rest of the script skipped -/
 partial def loop {σ : Type} (h : IO.FS.Stream) (init : σ) (step : σ → String → Tally → Except String (σ × Tally))
     (st : σ) (script : String) (lineNo : Nat) (skipping : Bool) (t : Tally) : IO Unit := do
@@ -313,6 +371,8 @@ partial def loop {σ : Type} (h : IO.FS.Stream) (init : σ) (step : σ → Strin
 def dispatch (cmd : String) (_args : List String) (h : IO.FS.Stream) : IO UInt32 := do
   match cmd with
   | "sketch" => loop h ({} : SkSt) skStep {} "" 0 false {}; return 0
+  | "ring" => loop h ({} : Impl.Ring.Ring) rgStep {} "" 0 false {}; return 0
+  | "concring" => loop h ({} : CrSt) crStep {} "" 0 false {}; return 0
   | "concpolicy" => loop h () cpStep () "" 0 false {}; return 0
   | "concmpsc" => loop h ({} : CmSt) cmStep {} "" 0 false {}; return 0
   | "concdrain" => loop h () cdStep () "" 0 false {}; return 0
